@@ -189,7 +189,9 @@ def run_task(P, task, prop, tier, out):
 
 def gate_eq(got, want):
     """equal as weights: both not positive (no-op for the child), or identical"""
-    return z3.Or(z3.And(z3.Not(got.ispos()), z3.Not(want.ispos())), got.same(want))
+    # exact: a vectorised child adds weights.sum() to its entries, so a NaN or negative weight on an
+    # unselected row is not a no-op there (unlike fill(), which tests weight > 0 per row)
+    return got.same(want)
 
 
 def sums_in(t):
